@@ -709,7 +709,7 @@ mod os {
 
     impl super::PopenOs for Popen {
         fn os_start(&mut self, argv: Vec<OsString>, config: PopenConfig) -> Result<()> {
-            let mut exec_fail_pipe = posix::pipe()?;
+            let mut exec_fail_pipe = posix::pipe_above_std()?;
             set_inheritable(&exec_fail_pipe.0, false)?;
             set_inheritable(&exec_fail_pipe.1, false)?;
             {
@@ -958,7 +958,7 @@ mod os {
     /// `winapi::um::namedpipeapi::CreatePipe`, depending on the operating
     /// system.
     pub fn make_pipe() -> io::Result<(File, File)> {
-        posix::pipe()
+        posix::pipe_above_std()
     }
 
     pub mod ext {
